@@ -8,6 +8,7 @@ import (
 	"fmt"
 	"strings"
 
+	"github.com/anoideaopen/foundation/core"
 	"github.com/anoideaopen/foundation/core/types"
 	"github.com/anoideaopen/foundation/core/types/big"
 	pb "github.com/anoideaopen/foundation/proto"
@@ -307,4 +308,28 @@ func (t *VT) TxLedgerApi(_ *types.Sender, call string) error {
 		return t.AllowedBalanceBurnLocked(tok, a, n, "api")
 	}
 	return errors.New("unknown function " + p[0])
+}
+
+// NBTxLegacy1Nb / NBTxLegacy2Nb authenticate themselves through the backward-compatible helper
+// core.CheckSign (one and two signer keys) and report who they were authenticated as.
+func (t *VT) NBTxLegacy1Nb(arg string, k1 string, s1 string) (string, error) {
+	addr, _, err := core.CheckSign(t.GetStub(), "legacy1Nb", []string{arg}, []string{k1, s1})
+	if err != nil {
+		return "", err
+	}
+	if err = t.GetStub().PutState("who", []byte(addr.String())); err != nil {
+		return "", err
+	}
+	return addr.String(), nil
+}
+
+func (t *VT) NBTxLegacy2Nb(arg string, k1 string, k2 string, s1 string, s2 string) (string, error) {
+	addr, _, err := core.CheckSign(t.GetStub(), "legacy2Nb", []string{arg}, []string{k1, k2, s1, s2})
+	if err != nil {
+		return "", err
+	}
+	if err = t.GetStub().PutState("who", []byte(addr.String())); err != nil {
+		return "", err
+	}
+	return addr.String(), nil
 }
